@@ -12,7 +12,7 @@ import re
 
 import common as C
 
-SRC_FILES = ['src/order.rs', 'src/shape.rs', 'src/index.rs', 'src/lib.rs', 'src/arithmetic.rs', 'src/iter/iter_mut.rs', 'src/swap.rs', 'src/iter.rs', 'src/construct.rs', 'src/eq.rs']
+SRC_FILES = ['src/order.rs', 'src/shape.rs', 'src/index.rs', 'src/lib.rs', 'src/arithmetic.rs', 'src/iter/iter_mut.rs', 'src/swap.rs', 'src/iter.rs', 'src/construct.rs', 'src/eq.rs', 'src/convert.rs']
 GEN_DIR = os.path.join(C.BUILD, 'gen')
 
 # which kernel functions each property's theorems rest on
@@ -26,13 +26,14 @@ VIEWS = ['Matrix_iter_nth_major_axis_vector_unchecked', 'Matrix_iter_nth_minor_a
          'Matrix_iter_nth_row', 'Matrix_iter_nth_col', 'Matrix_iter_nth_row_mut', 'Matrix_iter_nth_col_mut']
 
 CTORS = ['Matrix_new', 'Matrix_with_capacity', 'Matrix_with_default', 'Matrix_with_value', 'Matrix_with_initializer']
+CONVS = ['Matrix_try_from_array', 'Matrix_try_from_vec', 'Matrix_try_from_slice', 'Matrix_from_iter']
 
 OBLIGATIONS = {
     'C03': ITER_MACHINES,
     'C17': ITER_MACHINES,
     'C01': ['AxisShape_size', 'AxisShape_nrows', 'AxisShape_ncols', 'AxisShape_to_shape', 'Matrix_size', 'Matrix_is_empty', 'Matrix_nrows', 'Matrix_ncols',
             'Matrix_shape', 'Matrix_reshape', 'Shape_new', 'Shape_nrows', 'Shape_ncols', 'Matrix_is_square', 'Matrix_ensure_square',
-            'Matrix_apply', 'Matrix_map', 'Matrix_map_ref', 'Matrix_clear', 'Matrix_contains', 'Matrix_resize', 'Matrix_overwrite'],
+            'Matrix_apply', 'Matrix_map', 'Matrix_map_ref', 'Matrix_clear', 'Matrix_contains', 'Matrix_resize', 'Matrix_overwrite'] + CTORS + CONVS,
     'C04': ['AxisIndex_from_index', 'AxisIndex_is_out_of_bounds', 'AxisIndex_to_flattened', 'Matrix_major', 'Matrix_minor',
             'AxisShape_major', 'AxisShape_minor', 'AxisShape_major_stride', 'AxisShape_minor_stride'],
     'C05': ['Order_switch', 'Shape_transpose', 'AxisShape_transpose', 'AxisIndex_swap', 'AxisIndex_from_flattened', 'AxisIndex_to_flattened',
@@ -51,7 +52,7 @@ OBLIGATIONS = {
     'C13': ['AxisIndex_from_wrapping_index', 'AxisIndex_to_flattened', 'Matrix_is_empty', 'AxisShape_major', 'AxisShape_minor'],
     'C14': ['Matrix_major', 'Matrix_minor', 'Matrix_major_stride', 'Matrix_overwrite'],
     'C15': ['Index_from_flattened', 'Index_to_flattened', 'AxisIndex_to_index', 'AxisIndex_from_flattened', 'AxisIndex_from_index'],
-    'C19': ['Shape_size', 'Shape_try_to_axis_shape', 'Shape_to_axis_shape_unchecked', 'Matrix_check_size', 'Index_from_flattened'] + CTORS,
+    'C19': ['Shape_size', 'Shape_try_to_axis_shape', 'Shape_to_axis_shape_unchecked', 'Matrix_check_size', 'Index_from_flattened'] + CTORS + CONVS,
 }
 
 
